@@ -31,6 +31,11 @@ Definition c_s_dropped := s_dropped fc.
 Definition c_gf_term_eval fexp := gf_term_eval fc (fops fexp).
 Definition c_susc_term_eval fexp := susc_term_eval fc (fops fexp).
 
+(* which loops the source has now (translator): tested-before-read or not *)
+Definition c_gf_chase_guarded := gf_chase_guarded.
+Definition c_susc_chase_guarded := susc_chase_guarded.
+Definition c_chaseIndices_guarded := chaseIndices_guarded.
+
 (* the oracle side *)
 Definition c_poly_matrix fexp := poly_matrix fc (fops fexp).
 Definition c_op_matrix fexp := op_matrix fc (fops fexp).
@@ -46,6 +51,7 @@ Definition c_susc_terms fexp := susc_terms fc (fops fexp).
 Definition c_resonance_bound fexp := resonance_bound fc (fops fexp).
 Definition c_tau_dropped_bound fexp := tau_dropped_bound fc (fops fexp).
 Definition c_tau_merge_bound fexp := tau_merge_bound fc (fops fexp).
+Definition c_susc_tau_safe fexp := susc_tau_safe fc (fops fexp).
 
 Extraction "C01_model.ml"
   c_gf_compute c_gf_value c_gf_value_tau c_gf_matsubara c_gf_tols c_gf_part_value
@@ -53,5 +59,6 @@ Extraction "C01_model.ml"
   c_ensemble_average c_supplied c_ea_prepare c_ea_new c_cs_wf_b c_kept c_dropped c_s_kept c_s_dropped
   c_gf_term_eval c_susc_term_eval
   c_poly_matrix c_op_matrix c_weights c_rotate c_mmul
-  c_gf_lehmann c_dropped_bound c_with_delta c_merge_bound c_susc_lehmann c_susc_terms c_resonance_bound c_tau_dropped_bound c_tau_merge_bound
+  c_gf_lehmann c_dropped_bound c_with_delta c_merge_bound c_susc_lehmann c_susc_terms c_resonance_bound c_tau_dropped_bound c_tau_merge_bound c_susc_tau_safe
+  c_gf_chase_guarded c_susc_chase_guarded c_chaseIndices_guarded
   cstep cinit crun cdag cann mkcs mkgf mktols.
